@@ -69,7 +69,12 @@ type Path struct {
 	symbols []*smt.Term
 	symByName map[string]*smt.Term
 	nameCtr map[string]int
+	cmodel       smt.Model         // concolic model: satisfies the asserted path condition (nil = unknown)
+	pendingModel map[string]uint64 // model valid at the end of the replayed prefix
 	extra   map[string]uint64 // harness-level choices (verifrt.Choose), part of every model
+	dom       map[string]domain
+	entangled map[string]bool
+	svCache   map[int64]*svInfo
 	decided map[int64]bool // outcome of branch terms already decided on this path
 	hasDecided map[int64]bool
 	instrs  int64
@@ -124,8 +129,189 @@ func sanitize(s string) string {
 	return sb.String()
 }
 
+type domain [4]uint64
+
+func (d *domain) and(o *domain) { d[0] &= o[0]; d[1] &= o[1]; d[2] &= o[2]; d[3] &= o[3] }
+func (d *domain) empty() bool   { return d[0]|d[1]|d[2]|d[3] == 0 }
+func (d *domain) subsetOf(o *domain) bool {
+	return d[0]&^o[0] == 0 && d[1]&^o[1] == 0 && d[2]&^o[2] == 0 && d[3]&^o[3] == 0
+}
+
+type svInfo struct {
+	v    *smt.Term // the single small variable the term depends on (nil if none)
+	vars []*smt.Term
+	mask domain // values of v satisfying the term
+}
+
+func fullDomain(v *smt.Term) domain {
+	n := 2
+	if v.Sort.K == smt.SBV {
+		n = 1 << uint(v.Sort.W)
+	}
+	var d domain
+	for i := 0; i < n; i++ {
+		d[i>>6] |= 1 << uint(i&63)
+	}
+	return d
+}
+
+// analyse finds the variables of a Bool term and, if it depends on exactly one
+// variable of at most 8 bits (and no UF / float), its truth table.
+func (p *Path) analyse(c *smt.Term) *svInfo {
+	if inf, ok := p.svCache[c.ID]; ok {
+		return inf
+	}
+	inf := &svInfo{}
+	seen := map[*smt.Term]bool{}
+	pure := true
+	var walk func(t *smt.Term)
+	walk = func(t *smt.Term) {
+		if seen[t] || len(seen) > 5000 {
+			return
+		}
+		seen[t] = true
+		if t.Op == smt.OVar {
+			inf.vars = append(inf.vars, t)
+			return
+		}
+		if t.Op == smt.OUF || t.Sort.K == smt.SFP {
+			pure = false
+		}
+		for _, a := range t.Args {
+			walk(a)
+		}
+	}
+	walk(c)
+	if len(seen) > 5000 {
+		pure = false
+	}
+	if pure && len(inf.vars) == 1 {
+		v := inf.vars[0]
+		if v.Sort.K == smt.SBool || (v.Sort.K == smt.SBV && v.Sort.W <= 8) {
+			inf.v = v
+			n := 2
+			if v.Sort.K == smt.SBV {
+				n = 1 << uint(v.Sort.W)
+			}
+			m := smt.Model{}
+			for i := 0; i < n; i++ {
+				m[v.Name] = uint64(i)
+				if smt.Eval(c, m) != 0 {
+					inf.mask[i>>6] |= 1 << uint(i&63)
+				}
+			}
+		}
+	}
+	p.svCache[c.ID] = inf
+	return inf
+}
+
+// noteAsserted maintains the per-variable domains for an asserted constraint.
+func (p *Path) noteAsserted(c *smt.Term) {
+	if c.Op == smt.OConst {
+		return
+	}
+	inf := p.analyse(c)
+	if inf.v != nil {
+		d, ok := p.dom[inf.v.Name]
+		if !ok {
+			d = fullDomain(inf.v)
+		}
+		d.and(&inf.mask)
+		p.dom[inf.v.Name] = d
+		return
+	}
+	for _, v := range inf.vars {
+		p.entangled[v.Name] = true
+	}
+}
+
+// quickDecide decides a single-variable condition from the domains alone:
+// returns (tFeasible, fFeasible, decided).
+func (p *Path) quickDecide(c *smt.Term) (bool, bool, bool) {
+	inf := p.analyse(c)
+	if inf.v == nil {
+		return false, false, false
+	}
+	d, ok := p.dom[inf.v.Name]
+	if !ok {
+		d = fullDomain(inf.v)
+	}
+	inter := d
+	inter.and(&inf.mask)
+	if inter.empty() {
+		return false, true, true // no remaining value satisfies c
+	}
+	if d.subsetOf(&inf.mask) {
+		return true, false, true // every remaining value satisfies c
+	}
+	if !p.entangled[inf.v.Name] {
+		return true, true, true // all constraints on v are single-variable ones: exact
+	}
+	return false, false, false
+}
+
 func (p *Path) assertPC(c *smt.Term) {
 	p.w.solver.Assert(c)
+	p.noteAsserted(c)
+	if p.cmodel != nil {
+		if !evaluable(c) || smt.Eval(c, p.cmodel) == 0 {
+			p.cmodel = nil
+		}
+	}
+}
+
+// evaluable: can the term be evaluated under a model of its variables alone
+// (no uninterpreted functions, no floats)?
+func evaluable(t *smt.Term) bool {
+	seen := map[*smt.Term]bool{}
+	var walk func(t *smt.Term) bool
+	walk = func(t *smt.Term) bool {
+		if seen[t] {
+			return true
+		}
+		seen[t] = true
+		if t.Op == smt.OUF || t.Sort.K == smt.SFP {
+			return false
+		}
+		for _, a := range t.Args {
+			if !walk(a) {
+				return false
+			}
+		}
+		return true
+	}
+	return walk(t)
+}
+
+// modelNow reads the values of all symbols (call right after a Sat verdict).
+func (p *Path) modelNow() smt.Model {
+	vals, err := p.w.solver.GetValues(p.symbols)
+	if err != nil {
+		return nil
+	}
+	m := smt.Model{}
+	for _, s := range p.symbols {
+		m[s.Name] = vals[s]
+	}
+	return m
+}
+
+// checkSide: is pc ∧ lit satisfiable? Returns a model when it is.
+func (p *Path) checkSide(lit *smt.Term) (smt.Result, smt.Model) {
+	s := p.w.solver
+	if b, ok := lit.ConstBool(); ok && !b {
+		return smt.Unsat, nil
+	}
+	s.Push()
+	s.Assert(lit)
+	r := s.Check()
+	var m smt.Model
+	if r == smt.Sat && p.w.ex.Cfg.Concolic {
+		m = p.modelNow()
+	}
+	s.Pop()
+	return r, m
 }
 
 // branch decides a symbolic condition.
@@ -156,13 +342,53 @@ func (p *Path) branch(c *smt.Term) bool {
 			}
 		}
 	} else {
-		s := p.w.solver
-		rT := s.CheckWith(c)
-		var rF smt.Result
-		if rT == smt.Unsat {
-			rF = smt.Sat
+		if p.pos == len(p.prefix) && p.pendingModel != nil {
+			p.cmodel = smt.Model(p.pendingModel)
+			p.pendingModel = nil
+		}
+		var rT, rF smt.Result
+		var mT, mF smt.Model
+		if tq, fq, ok := p.quickDecide(c); ok && p.w.ex.Cfg.Domains {
+			rT, rF = smt.Unsat, smt.Unsat
+			if tq {
+				rT = smt.Sat
+			}
+			if fq {
+				rF = smt.Sat
+			}
+			if p.cmodel != nil {
+				// keep following the current model when it is still usable
+				if smt.Eval(c, p.cmodel) != 0 {
+					if tq {
+						mT = p.cmodel
+					} else {
+						p.cmodel = nil
+					}
+				} else {
+					if fq {
+						mF = p.cmodel
+					} else {
+						p.cmodel = nil
+					}
+				}
+			}
+			p.w.ex.addQuick()
+		} else if p.cmodel != nil && evaluable(c) {
+			// concolic: the side the current model takes is feasible without asking
+			if smt.Eval(c, p.cmodel) != 0 {
+				rT, mT = smt.Sat, p.cmodel
+				rF, mF = p.checkSide(smt.Not(c))
+			} else {
+				rF, mF = smt.Sat, p.cmodel
+				rT, mT = p.checkSide(c)
+			}
 		} else {
-			rF = s.CheckWith(smt.Not(c))
+			rT, mT = p.checkSide(c)
+			if rT == smt.Unsat {
+				rF = smt.Sat
+			} else {
+				rF, mF = p.checkSide(smt.Not(c))
+			}
 		}
 		if rT == smt.Unknown || rF == smt.Unknown {
 			p.unknowns++
@@ -171,17 +397,44 @@ func (p *Path) branch(c *smt.Term) bool {
 		tOK, fOK := rT != smt.Unsat, rF != smt.Unsat
 		switch {
 		case tOK && fOK:
-			alt := append(append([]Decision{}, p.trace...), Decision{K: DBranch, B: false})
-			p.w.ex.push(alt)
+			// continue on the side of the current model (true if none), push the other
 			res = true
-			p.trace = append(p.trace, Decision{K: DBranch, B: true})
-			p.assertPC(c)
+			if p.cmodel != nil && mF != nil && sameModel(mF, p.cmodel) {
+				res = false
+			}
+			var altM smt.Model
+			if res {
+				altM = mF
+				if mT != nil {
+					p.cmodel = mT
+				} else {
+					p.cmodel = nil
+				}
+			} else {
+				altM = mT
+			}
+			alt := append(append([]Decision{}, p.trace...), Decision{K: DBranch, B: !res})
+			p.w.ex.pushM(alt, altM)
+			p.trace = append(p.trace, Decision{K: DBranch, B: res})
+			keep := p.cmodel
+			if res {
+				p.assertPC(c)
+			} else {
+				p.assertPC(smt.Not(c))
+			}
+			p.cmodel = keep // the model was chosen to satisfy this literal
 		case tOK:
 			res = true
 			p.trace = append(p.trace, Decision{K: DBranch, B: true, N: 1})
+			if mT != nil {
+				p.cmodel = mT
+			}
 		case fOK:
 			res = false
 			p.trace = append(p.trace, Decision{K: DBranch, B: false, N: 1})
+			if mF != nil {
+				p.cmodel = mF
+			}
 		default:
 			p.abort(OutInconclusive, "both sides of a branch infeasible (path condition unsat?)")
 		}
@@ -349,4 +602,18 @@ func sortedKeys(m map[string]bool) []string {
 	}
 	sort.Strings(ks)
 	return ks
+}
+
+func sameModel(a, b smt.Model) bool {
+	// identity of the underlying map
+	if len(a) != len(b) {
+		return false
+	}
+	for k, v := range a {
+		if bv, ok := b[k]; !ok || bv != v {
+			return false
+		}
+		break
+	}
+	return fmt.Sprintf("%p", a) == fmt.Sprintf("%p", b)
 }
